@@ -127,6 +127,14 @@ CLAIMED = {
    note="zstd framing and decoding are executed leaves (independent frame walker, two implementations).",
    technique="TLA+ spec checked by TLC; trace validation of histories on a shared directory; differential decoding with libzstd",
    design="4/C20"),
+ "C18": dict(
+   text="Unpack.tla is a path algebra (cleaning joins, symlink resolution through the tree built so far) plus the decoder and disk writer as coded; TLC proves "
+        "Confined for every archive of <= 3 entries over a hostile name alphabet with name validation on, and shows the escape with it off (the defect F9, fixed). "
+        "Hostile archives from an independent encoder (all of <= 2 entries, random longer ones, well-formed names in hostile orders such as symlink-then-directory) "
+        "are unpacked by the real UnTar/UnTarIndex as root into a sandbox whose surroundings are snapshotted before and after.",
+   note="LocalFS only (the tar/mtree writers do not touch the filesystem). Symlinks created by the archive may point outside (that is allowed); following them is not.",
+   technique="TLA+ spec checked by TLC over all small archives; trace validation of real unpack runs in a sandbox",
+   design="4/C18"),
  "C13": dict(
    text="Catar.tla is the archive format as an attributed grammar: a pushdown recogniser over element tokens checking contiguous offsets, size fields, element "
         "order, sorted children and xattrs, and every goodbye table (items = children's back-offsets/sizes/name hashes laid out as a complete BST in array form, "
